@@ -101,6 +101,10 @@ class FakeSP(object):
         if w.scn.get('fault') == 'popen' and uid == w.scn.get('fault_uid', 't1'):
             raise OSError('exec format error (injected)')
         p = FakeProc(w, uid)
+        if w.scn.get('instant_exit'):
+            # a very short task: the process is gone when Popen() returns
+            i = int(uid[1:]) - 1
+            p.code = w.scn['exit_codes'][i] or 0
         w.procs[uid] = p
         return p
 
@@ -493,6 +497,12 @@ def scenarios(quick):
         add('timeout', 1, (code,), timeout=1.0, ticks=2)
         add('cancel+timeout', 1, (code,), cancel=['t1'], timeout=1.0, ticks=2)
         add('cancel-first', 1, (code,), cancel=['t1'], cancel_first=True)
+    for code in (0, 1):
+        # very short tasks: the process has exited when it is spawned
+        add('exit', 1, (code,), instant_exit=True)
+        add('cancel', 1, (code,), cancel=['t1'], instant_exit=True)
+        add('timeout', 1, (code,), timeout=1.0, ticks=2, instant_exit=True)
+    add('cancel', 2, (0, 0), cancel=['t1'], instant_exit=True)
     add('cancel', 1, (None,), cancel=['t1'])
     add('timeout', 1, (None,), timeout=1.0, ticks=2)
     for fault in ('exec', 'launch', 'popen', 'nolauncher'):
